@@ -57,7 +57,8 @@ ASSUMPTIONS = ["executor jobs atomic", "one gateway context at a time"]
 REQUIRED_PROBES = ["exit_before_saver_started", "exit_inside_open", "exit_inside_write", "exit_inside_close",
                    "exit_while_saver_sleeping", "connect_failed", "body_raised", "disconnect_failed",
                    "periodic_saves_96", "kind_sim", "kind_tcp", "kind_serial", "kind_mqtt", "registry_changed_in_body",
-                   "second_context_on_same_gateway", "disk_fault_in_first_session",
+                   "second_context_on_same_gateway", "disk_fault_in_first_session", "cancelled_while_connecting",
+                   "cancelled_in_body",
                    "missing_file_on_entry"]
 SHRINK_LISTS = ("lines", "tapes")
 KINDS = ["sim", "tcp", "serial", "mqtt"]
@@ -137,7 +138,19 @@ def gen(seed: int, i: int, tier: str) -> dict:
         tapes["exec.cancel_skips"] = [rng.choice([0, 1]) for _ in range(6)]
     cfg = {"kind": kind, "init": init, "image": rand_snap(rng), "body": body, "duration": dur,
            "reenter": rng.random() < 0.3, "reenter_for": rng.choice([0, 0.5, 2.5, 901.5])}
-    if rng.random() < 0.08 and not any(k for k in tapes if "fail" in k):
+    if rng.random() < 0.06 and not any(k for k in tapes if "fail" in k):
+        # the application cancels / times out the task that is entering the context while connect() is pending
+        lat = rng.choice([2, 5])
+        tapes["connect.lat"] = [lat]
+        tapes["mqtt.connect.lat"] = [lat]
+        cfg["cancel_at"] = rng.choice([0.5, 1.0, 1.5])
+        cfg["reenter"] = False
+    elif rng.random() < 0.04 and body == "sleep" and dur >= 2.5 and not any(k for k in tapes if "fail" in k) \
+            and "connect.lat" not in tapes:
+        cfg["cancel_at"] = dur - 1.0  # cancelled inside the body: the exit path must still run completely
+        cfg["cancel_in_body"] = True
+        cfg["reenter"] = False
+    if rng.random() < 0.08 and not any(k for k in tapes if "fail" in k) and "cancel_at" not in cfg:
         # the disk fails during the first session (outside this property's fault space: nothing is demanded of that
         # session); the SECOND session on the same gateway object, with a healthy disk, must satisfy the property
         cfg["disk_fault"] = [rng.choice(["write", "open", "close"]), rng.randint(1, 4), rng.choice(["ENOSPC", "EIO"])]
@@ -224,10 +237,13 @@ def _run(scn, cfg, w, res):
         if isinstance(func, functools.partial) and getattr(func.func, "__self__", None) is w.disk:
             mode = func.keywords.get("mode", "r")
             if "w" in mode:
+                # A save is "background" unless the task that entered the context issues it itself
+                # before the body starts (file created for a missing file) or after the body ended
+                # (final save).  No name of the library's saver is involved.
                 cur = asyncio.current_task()
-                who = getattr(cur.get_coro(), "__qualname__", "") if cur is not None else ""
+                own = cur is st.get("task") and (st["entered"] is None or st["exit_begin"] is not None)
                 rec = {"start": loop.time(), "end": None, "snap": snapshot(gw.nodes), "image": None,
-                       "opened": None, "wrote": None, "by_saver": "save_on_schedule" in who, "rid": None}
+                       "opened": None, "wrote": None, "by_saver": not own, "rid": None}
                 saves.append(rec)
                 w.log("harness", "save-start", len(saves))
 
@@ -312,6 +328,12 @@ def _run(scn, cfg, w, res):
         st["done"] = True
 
     t = loop.create_task(main())
+    st["task"] = t
+    if cfg.get("cancel_at") is not None:
+        # main() catches BaseException itself, so the CancelledError shows up in st["exc"]
+        conn = scn.get("tapes", {}).get("connect.lat", [0])[0] if cfg.get("cancel_in_body") else 0
+        loop.call_later(cfg["cancel_at"] + st_offset(scn) + conn, t.cancel)
+        res.probes["cancelled_while_connecting" if not cfg.get("cancel_in_body") else "cancelled_in_body"] += 1
     loop.run_until_idle(40 * 86400)
     loop.on_exec_submit = None
     tapes = scn.get("tapes", {})
@@ -344,6 +366,11 @@ def _run(scn, cfg, w, res):
         for u in loop.unhandled:
             res.violate(PROP, "no-task-left-running", f"unhandled-in-loop:{u['exc']}", str(u))
     # ---- connect failure ----
+    if st["entered"] is None and cfg.get("cancel_at") is not None:
+        if not isinstance(exc, asyncio.CancelledError):
+            res.violate(PROP, "connect-failure-propagates", f"cancellation-replaced-by:{type(exc).__name__ if exc else None}", repr(exc)[:200])
+        res.nontrivial_key = "C16:" + w.elog.digest()[:24]
+        return
     if st["entered"] is None:
         res.probes["connect_failed"] += 1
         if exc is None:
@@ -364,6 +391,8 @@ def _run(scn, cfg, w, res):
     if cfg["body"] == "raise":
         res.probes["body_raised"] += 1
     want = "body" if cfg["body"] == "raise" else ("disconnect" if disconnect_fault else None)
+    if cfg.get("cancel_in_body") and isinstance(exc, asyncio.CancelledError):
+        exc = None  # the cancellation was requested by the application inside the body
     if disconnect_fault:
         res.probes["disconnect_failed"] += 1
     if want is None and exc is not None:
@@ -429,12 +458,28 @@ def _run(scn, cfg, w, res):
         res.violate(PROP, "save-cadence", "saver-stopped", f"last save ended {periodic[-1]['end']}, exit at {st['exit_begin']}")
     if len(periodic) >= 96:
         res.probes["periodic_saves_96"] += 1
+    # ---- nothing keeps running after exit: no task AND no timer that would save again later ----
+    n_ev = len(w.disk.journal)
+    loop.run_until_idle(1900)
+    if loop.pending_tasks() or len(w.disk.journal) != n_ev:
+        res.violate(PROP, "no-task-left-running", "activity-after-exit",
+                    f"tasks={len(loop.pending_tasks())} disk events after exit={w.disk.journal[n_ev:n_ev + 4]}")
     if cfg.get("reenter") and exc is None:
         _second_session(scn, cfg, w, gw, kind, res)
     res.ops = len(saves) + len(scn["lines"]) + 2
     if ph != "sleeping" or w.faults or len(periodic) >= 2:
         res.nontrivial_key = "C16:" + w.elog.digest()[:24]
     res.states.add(("C16", kind, ph, cfg["body"], bool(exc)))
+
+
+def st_offset(scn) -> float:
+    """Virtual time that passes before the body starts (load jobs + connect latency), for body-relative instants."""
+    lat = scn.get("tapes", {}).get("exec.lat", [])
+    off, last = 0.0, 0.0
+    for k in range(3):  # open, read, close of the load (jobs complete in submission order)
+        last = max(last, off + (lat[k] if k < len(lat) else 0))
+        off = last
+    return off
 
 
 def _second_session(scn, cfg, w, gw, kind, res, after_disk_fault=False):
